@@ -17,6 +17,7 @@ INIT Init
 NEXT Next
 INVARIANT Monotone
 INVARIANT RequestedPresent
+INVARIANT RequestedPresentStrict
 INVARIANT ClosureSufficient
 INVARIANT ClosureExact
 INVARIANT LfpIsLeast
